@@ -17,6 +17,8 @@ def actOfName (name : String) (arg : Option Int) : Option Act :=
   | "gocRegister", _ => some .gocRegister | "gocFetch", _ => some .gocFetch
   | "setupAtomic", _ => some .setupAtomic | "setupTest", _ => some .setupTest | "setupDo", _ => some .setupDo
   | "checkActive", _ => some .checkActive
+  | "nextAtomicErr", _ => some .nextAtomicErr | "createAtomicErr", _ => some .createAtomicErr
+  | "poll", _ => some .poll
   | "nextAtomic", _ => some .nextAtomic | "nextLatest", _ => some .nextLatest | "nextStatus", _ => some .nextStatus
   | "createAtomic", _ => some .createAtomic | "ctCheck", _ => some .ctCheck | "ctNew", _ => some .ctNew
   | "ctAppend", _ => some .ctAppend | "ctPendR", _ => some .ctPendR | "ctPendW", _ => some .ctPendW
@@ -67,7 +69,8 @@ def cfgOfJ (j : J) : LockCfg :=
     addMeasurementAtomic := g "addMeasurementAtomic" cfgNow.addMeasurementAtomic
     generatorCountersAtomic := g "generatorCountersAtomic" cfgNow.generatorCountersAtomic
     evolutionProposeAtomic := g "evolutionProposeAtomic" cfgNow.evolutionProposeAtomic
-    evolutionFeedbackAtomic := g "evolutionFeedbackAtomic" cfgNow.evolutionFeedbackAtomic }
+    evolutionFeedbackAtomic := g "evolutionFeedbackAtomic" cfgNow.evolutionFeedbackAtomic
+    proposeBeforeBookkeeping := g "proposeBeforeBookkeeping" cfgNow.proposeBeforeBookkeeping }
 
 def cfgToJ (c : LockCfg) : J :=
   .obj [("getOrCreateAtomic", .bool c.getOrCreateAtomic), ("algoSetupAtomic", .bool c.algoSetupAtomic),
@@ -78,7 +81,8 @@ def cfgToJ (c : LockCfg) : J :=
         ("addMeasurementAtomic", .bool c.addMeasurementAtomic),
         ("generatorCountersAtomic", .bool c.generatorCountersAtomic),
         ("evolutionProposeAtomic", .bool c.evolutionProposeAtomic),
-        ("evolutionFeedbackAtomic", .bool c.evolutionFeedbackAtomic)]
+        ("evolutionFeedbackAtomic", .bool c.evolutionFeedbackAtomic),
+        ("proposeBeforeBookkeeping", .bool c.proposeBeforeBookkeeping)]
 
 def pcTrial : PC → Option Nat
   | .hold t | .amOk t | .doneOk t | .doneFin t | .doneFb t | .doneFbW t | .doneCp t | .skipOk t
